@@ -279,7 +279,7 @@ WriteKey(e) ==
 SameWrite(sn, e) ==
   LET o == T.events[sn.ei] IN
     sn.key = WriteKey(e) /\ o.claim.valid /\ e.claim.valid /\ o.opts.route = e.opts.route /\ o.opts.in_chunk = e.opts.in_chunk
-    /\ o.opts.out_chunk = e.opts.out_chunk /\ o.hc = e.hc /\ o.fid \notin failedw /\ e.fid \notin failedw
+    /\ o.opts.out_chunk = e.opts.out_chunk /\ o.hc = e.hc
 
 BeginWrite ==
   /\ ph = "ev" /\ ei <= NEvents /\ IsWriteOp
